@@ -33,4 +33,5 @@ CONSTANTS
   EmitFilter <- c_EmitFilter
 INVARIANT TypeOK
 INVARIANT EmitInv
+INVARIANT NormInv
 CHECK_DEADLOCK FALSE
